@@ -2,6 +2,8 @@
 #![allow(dead_code)]
 #[cfg(kani)]
 mod c15;
+#[cfg(kani)]
+mod c15m;
 
 #[cfg(kani)]
 pub fn format_stub(_a: std::fmt::Arguments<'_>) -> String {
